@@ -546,6 +546,11 @@ def terminal_callers_rule(ctx: Ctx, rule="R-C14-REDELIVER", ops=C.TERMINAL_OPS, 
                     continue
                 n += 1
                 ok = op in TERMINAL_CALLERS.get(fn.qualname, set())
+                if not ok and fn.cls is not None:
+                    # a private helper of an allowed owner (same class), e.g. an extracted `__requeue_as_retry`
+                    for q_, ops_ in TERMINAL_CALLERS.items():
+                        if op in ops_ and q_ in ctx.prog.functions and q_.rsplit(".", 1)[0] == fn.cls.qualname and fn in C.helper_callees(ctx, ctx.prog.functions[q_]):
+                            ok = True
                 ctx.check(ok, rule, fn, f"{op} called from {fn.short()}", "a known owner of terminal actions",
                           f"{fn.short()} applies the terminal broker operation '{op}': terminal actions may only come from the processor's ladder, the runner's cancel/limit path, the Message API, "
                           "consumer shutdown and Redis maintenance - anything else can return or dispose a message its holder is still working on", node=c, instance=f"{op} in {fn.short()}")
